@@ -24,7 +24,7 @@ from vlib.refcodec import Codec, CodecError, F, f32, f64, canon_steps, first_dif
 from vlib.values import zero_value
 
 LEVEL = "exploration"
-FLOOR = {"quick": 150, "thorough": 2500}
+FLOOR = {"quick": 150, "thorough": 6000}
 
 EDITS = [evo.e_add_optional_field, evo.e_remove_optional_field, evo.e_add_required_field, evo.e_remove_required_field, evo.e_reorder_fields,
          evo.e_rename_with_alias, evo.e_introduce_alias, evo.e_add_step, evo.e_make_optional, evo.e_make_required, evo.e_add_unused_alias]
@@ -236,7 +236,7 @@ def run(ctx):
     quick = ctx.tier == "quick"
     home = os.path.join(ctx.workdir, "home")
     os.makedirs(home, exist_ok=True)
-    nchains = 5 if quick else 50
+    nchains = 5 if quick else 300
     length = 3 if quick else 4
     ctx.rule = ("%d seeded chains of %d versions (2-3 documented edits per step, each site edited once) over a base with nested records, generics, optionals, vectors, streams "
                 "and enums; per chain: every old version read by the newest generated reader and every old version written by the newest generated writer, 6 value sets "
